@@ -174,6 +174,7 @@ func (g *Gateway) handleWebsocketProtocol(ctx context.Context, c *websocket.Conn
 	handler := NewProcessor(g, t)
 	RegisterTunnel(t, handler)
 	defer RemoveTunnel(t)
+	defer t.Close()
 	handler.Process(ctx)
 }
 
@@ -230,6 +231,7 @@ func (g *Gateway) handleLegacyProtocol(w http.ResponseWriter, r *http.Request, t
 			handler := NewProcessor(g, t)
 			RegisterTunnel(t, handler)
 			defer RemoveTunnel(t)
+			defer t.Close()
 			handler.Process(r.Context())
 		}
 	}
